@@ -1254,6 +1254,9 @@ func (e *Exec) specCall(call *ast.CallExpr, c *Ctx) Term {
 			}
 			c2 := *c
 			c2.st = c.old
+			if c2.cur == nil {
+				c2.cur = c.st
+			}
 			return e.eval(call.Args[0], &c2)
 		case "ite":
 			cnd := e.evalCond(call.Args[0], c)
